@@ -21,7 +21,6 @@ type c14Note struct {
 	Changes []c14Change
 }
 
-
 func c14Wire(ref *rm.Schema, st map[string]map[string]rm.Row, n c14Note) ovsdb.TableUpdates2 {
 	tu := ovsdb.TableUpdates2{}
 	for _, c := range n.Changes {
@@ -101,7 +100,6 @@ func c14Wire(ref *rm.Schema, st map[string]map[string]rm.Row, n c14Note) ovsdb.T
 	}
 	return tu
 }
-
 
 // diffUpdates2 renders the difference between two database states, restricted to tables, as an update2 table-updates object.
 func diffUpdates2(ref *rm.Schema, before, after *rm.DB, tables []string) ovsdb.TableUpdates2 {
